@@ -78,6 +78,32 @@ theorem wellFramed_eq_frame {m : Msg} (h : WellFramed m) : m = frame (mtype m) (
   obtain ⟨t, b, _, rfl⟩ := h
   simp [frame, mtype, mbody, be24]
 
+theorem be24_nat24 (a b c : UInt8) : be24 (nat24 a b c) = [a, b, c] := by
+  have ha := UInt8.toNat_lt a; have hb := UInt8.toNat_lt b; have hc := UInt8.toNat_lt c
+  simp only [be24, nat24]
+  have h1 : UInt8.ofNat ((a.toNat * 65536 + b.toNat * 256 + c.toNat) / 65536) = a := by
+    apply UInt8.toNat_inj.mp; rw [ofNat_toNat]; omega
+  have h2 : UInt8.ofNat ((a.toNat * 65536 + b.toNat * 256 + c.toNat) / 256) = b := by
+    apply UInt8.toNat_inj.mp; rw [ofNat_toNat]; omega
+  have h3 : UInt8.ofNat (a.toNat * 65536 + b.toNat * 256 + c.toNat) = c := by
+    apply UInt8.toNat_inj.mp; rw [ofNat_toNat]; omega
+  rw [h1, h2, h3]
+
+/-- executable form of `WellFramed` -/
+def wellFramedB : Msg → Bool
+  | _ :: a :: b :: c :: rest => rest.length == nat24 a b c
+  | _ => false
+
+theorem wellFramed_of_B {m : Msg} (h : wellFramedB m = true) : WellFramed m := by
+  unfold wellFramedB at h
+  split at h
+  · rename_i t a b c rest
+    have hl : rest.length = nat24 a b c := by simpa using h
+    have ha := UInt8.toNat_lt a; have hb := UInt8.toNat_lt b; have hc := UInt8.toNat_lt c
+    refine ⟨t, rest, by rw [hl]; unfold nat24; omega, ?_⟩
+    rw [hl, be24_nat24]; rfl
+  · cases h
+
 /-- what `readHandshake` splits off the buffer is well framed -/
 theorem splitMsg_wellFramed {hand : Bytes} {m : Msg} {rest : Bytes} (h : splitMsg hand = some (m, rest)) :
     WellFramed m ∧ hand = m ++ rest := by
